@@ -363,7 +363,7 @@ func (c *checkCtx) report(t0 time.Time, verbose bool) int {
 		for _, ob := range f.obls {
 			if ob.Cover {
 				if verbose {
-					fmt.Printf("  [%s] %s (%s, %d ms)\n", ob.Status, ob.Name(), ob.Solver, ob.Ms)
+					fmt.Printf("  [%s] #%d %s (%s, %d ms)\n", ob.Status, ob.ID, ob.Name(), ob.Solver, ob.Ms)
 				}
 				covers++
 				switch ob.Status {
@@ -421,7 +421,7 @@ func (c *checkCtx) report(t0 time.Time, verbose bool) int {
 				}
 			}
 			if verbose {
-				fmt.Printf("  [%s] %s (%s, %d ms)\n", ob.Status, ob.Name(), ob.Solver, ob.Ms)
+				fmt.Printf("  [%s] #%d %s (%s, %d ms)\n", ob.Status, ob.ID, ob.Name(), ob.Solver, ob.Ms)
 			}
 		}
 	}
